@@ -22,9 +22,9 @@ const (
 	OpRUnlock
 	OpPoolGet
 	OpPoolPut
-	OpStart   // thread is about to run its first instruction
-	OpYield   // harness-level point (between operations, handler entry/exit)
-	OpDone    // thread finished
+	OpStart // thread is about to run its first instruction
+	OpYield // harness-level point (between operations, handler entry/exit)
+	OpDone  // thread finished
 )
 
 const (
